@@ -90,7 +90,7 @@ PROPS = {
         "constants": ["ANNOUNCE_PICK_NUM", "INITIAL_PICK_NUM", "ITERATIVE_PICK_NUM", "MAX_TOKEN_LEN"],
         "trusted": COMMON_TRUST + ["transaction ids, action ids and token secrets are symbolic in the model and canonicalised by order of first appearance on both sides (C19/C06 prove what the symbols stand for)", "tokio timers fire at their deadline rounded up to the 1 ms tick (the observed instant is an oracle input of the `fire` op)"],
         "assumptions": [],
-        "level_note": "PARTIAL: proved for all runs — every peer of every accepted answer is delivered once per occurrence; the announces go to the first 8 token-holding candidates in candidate order with that node's latest token, the info-hash, the own id and the configured port. Not proved in Lean — that under E1-E4 all 8 closest nodes are queried/answer in time and the candidate list is sorted; the end-to-end claim is decided by the [C02] oracle on truthful simulated networks (tie)",
+        "level_note": "PARTIAL: proved for all runs — every peer of every accepted answer is delivered once per occurrence; the candidate list of every stored search is sorted by XOR distance in every state (binary search of insert_sorted_node proved correct: C02_candidates_sorted), so the announces go to the 8 closest candidates that answered with a token (C02_announce_closest), each with that node's latest token, the info-hash, the own id and the configured port. Not proved in Lean — the liveness part: that under E1-E4 all 8 closest nodes of the network become candidates and answer in time; the end-to-end claim is decided by the [C02] oracle on truthful simulated networks (tie)",
     },
     "C03": {
         "engines": [{"name": "handler", "quick": 60, "thorough": 1500, "oracle_tag": "C03"}],
